@@ -159,7 +159,7 @@ def inline_locals(F, v, depth=2):
         args = [inline_locals(F, a, depth) for a in v[2]]
         node = ('call', v[1], args, v[3])
         f = v[1]
-        if f.get('local') and not f.get('impl_adt') and F.fn(f.get('path') or '') is not None:
+        if f.get('local') and (f.get('impl_adt') or '') != 'any::difficulty::Difficulty' and '{closure' not in (f.get('path') or '') and F.fn(f.get('path') or '') is not None:
             inl = prov.inline_call(F, node)
             if inl is not node:
                 return inline_locals(F, inl, depth - 1)
@@ -265,6 +265,22 @@ def r4_r5(ctx, F):
                         break
                 srcs.append(s)
             called[f['name']] = srcs
+    # setters applied through a helper that takes the setter as a function value (`set_if_some(d, self.x, Difficulty::x)`)
+    import combin as _cb
+    tree = _cb.expand(F, inline_locals(F, prov.prov_of(into).return_value(), depth=3))
+    for n in prov.walk(tree, limit=4000):
+        if n[0] == 'call' and n[1].get('name') in SETTERS and n[1].get('name') not in called and \
+                ((n[1].get('impl_adt') == DIFF) or (n[1].get('path') or '') == DIFF + '::' + n[1].get('name')):
+            srcs = []
+            for a in n[2][1:]:
+                s_ = None
+                for m_ in prov.walk(a, limit=100):
+                    pp = as_param_path(m_)
+                    if pp is not None and pp[0] == 1 and pp[1]:
+                        s_ = pp[1][0]
+                        break
+                srcs.append(s_)
+            called[n[1]['name']] = srcs
     # literal style: `Difficulty { slot: self.S, .. }` is equivalent to replaying the setter iff the slot receives what the setter
     # would store: same source field and the same clamp (constants) the setter applies
     import combin
